@@ -203,6 +203,12 @@ def run(rep):
         if len(arc) > 4:
             cuts = sorted(r.sample(range(1, len(arc)), min(2, len(arc) - 1)))
             variants.append(("A6", dict(source=tuple([6] + cuts))))
+            # the same cuts behind callbacks (appended callback data), seek and skip offered
+            variants.append(("A6", dict(source=tuple([7] + cuts), rplan=[r.choice([512, 4096, 10240, 65536])], has_skip=1, has_seek=1)))
+            # seek callback only (lseek-like), one node and several: same capability class as A for the formats
+            variants.append(("A-seekonly", dict(source=(7,), rplan=[10240], has_seek=1)))
+            variants.append(("A-seekonly", dict(source=tuple([7] + cuts), rplan=[r.choice([512, 4096, 10240, 65536])], has_seek=1)))
+            variants.append(("A-seekonly", dict(source=(0,), rplan=[10240] * (len(arc) // 10240 + 2), has_seek=1)))
         # class B: neither
         variants += [("B", dict(source=(0,), rplan=[]))]
         variants += [("B", dict(source=(0,), rplan=[sz] * (len(arc) // sz + 2))) for sz in sizes]
@@ -210,6 +216,10 @@ def run(rep):
         # class C: skip only
         variants += [("C", dict(source=(0,), rplan=[], has_skip=1))]
         variants += [("C", dict(source=(0,), rplan=[sz] * (len(arc) // sz + 2), has_skip=1)) for sz in sizes[:2]]
+        if name.endswith("#big"):
+            # every way of not reading the bodies: explicit skip and no call at all
+            variants = variants + [(cls, dict(kw, consume=(3, 0, 0))) for cls, kw in variants] + \
+                       [(cls, dict(kw, consume=(4, 0, 0))) for cls, kw in variants]
         for cls, kw in variants:
             rcases.append(readcore.read_case(arc, **kw))
             meta.append((name, cls, kw))
@@ -224,7 +234,7 @@ def run(rep):
         d = readcore.digest_ok(l)
         if d is None:
             continue
-        key = (name, cls[0])
+        key = (name, cls[0], kw.get("consume"))
         # A6 (multi-volume) is compared with class A on everything
         if key not in base:
             base[key] = (kw, d, c)
